@@ -61,6 +61,7 @@ var (
 	flagOpenPkgs = flag.String("openpkgs", "", "comma separated package paths in which os.Open is replaced")
 	flagGoCtl    = flag.String("goctl", "", "comma separated func names (pkgpath.Func) whose go statements are controlled")
 	flagNoOpen   = flag.Bool("noopen", false, "do not apply the os.Open seam")
+	flagBlocking = flag.Bool("blocking", true, "bracket sync.Mutex/Once critical sections and blocking channel / WaitGroup / Cond operations")
 )
 
 func main() {
@@ -92,6 +93,7 @@ type rewriter struct {
 	goCtl   map[string]bool
 	curFunc string
 	used    bool // current file uses simrt
+	parentOf map[ast.Node]ast.Node
 }
 
 func run() (*Report, error) {
@@ -269,6 +271,19 @@ func orderedKey(t types.Type) bool {
 
 func (rw *rewriter) file(f *ast.File, fname string) bool {
 	rw.used = false
+	rw.parentOf = map[ast.Node]ast.Node{}
+	var stack []ast.Node
+	ast.Inspect(f, func(n ast.Node) bool {
+		if n == nil {
+			stack = stack[:len(stack)-1]
+			return true
+		}
+		if len(stack) > 0 {
+			rw.parentOf[n] = stack[len(stack)-1]
+		}
+		stack = append(stack, n)
+		return true
+	})
 	// imports of randomness
 	for _, im := range f.Imports {
 		p := strings.Trim(im.Path.Value, `"`)
@@ -302,12 +317,30 @@ func (rw *rewriter) file(f *ast.File, fname string) bool {
 		case *ast.RangeStmt:
 			rw.rangeStmt(n)
 		case *ast.SelectStmt:
-			rw.uncontrolled("select", n.Pos())
+			if *flagBlocking {
+				rw.selectStmt(c, n)
+			}
+		case *ast.SendStmt:
+			if !*flagBlocking {
+				break
+			}
+			if _, inComm := c.Parent().(*ast.CommClause); inComm && c.Name() == "Comm" {
+				break
+			}
+			rw.used = true
+			id := rw.site("chan", n.Pos(), "send")
+			c.Replace(&ast.ExprStmt{X: simCall("Send", lit(id), n.Chan, n.Value)})
 		case *ast.GoStmt:
 			c.Replace(rw.goStmt(n))
 		case *ast.CallExpr:
 			rw.call(n)
 		case *ast.UnaryExpr:
+			if n.Op == token.ARROW {
+				if *flagBlocking {
+					rw.recvExpr(c, n)
+				}
+				break
+			}
 			if cl, ok := n.X.(*ast.CompositeLit); ok && n.Op == token.AND && rw.isHTTPClient(cl) {
 				rw.site("httpclient", n.Pos(), "")
 				rw.used = true
@@ -357,6 +390,42 @@ func (rw *rewriter) call(n *ast.CallExpr) {
 			return
 		}
 	}
+	// methods of package sync that delimit critical sections or may wait for another task
+	if s, ok := rw.info.Selections[sel]; ok && *flagBlocking {
+		if fn, ok := s.Obj().(*types.Func); ok && fn.Pkg() != nil && fn.Pkg().Path() == "sync" {
+			recv := ""
+			if sig, ok := fn.Type().(*types.Signature); ok && sig.Recv() != nil {
+				if named, ok := deref(sig.Recv().Type()).(*types.Named); ok {
+					recv = named.Obj().Name()
+				}
+			}
+			wrap := ""
+			switch recv + "." + fn.Name() {
+			case "Mutex.Lock", "RWMutex.Lock", "RWMutex.RLock", "Locker.Lock":
+				wrap = "DoLock"
+			case "Mutex.Unlock", "RWMutex.Unlock", "RWMutex.RUnlock", "Locker.Unlock":
+				wrap = "DoUnlock"
+			case "Mutex.TryLock", "RWMutex.TryLock", "RWMutex.TryRLock":
+				wrap = "DoTryLock"
+			case "Once.Do":
+				wrap = "DoOnce"
+			case "WaitGroup.Wait", "Cond.Wait":
+				wrap = "DoBlocking"
+			}
+			if wrap != "" {
+				rw.used = true
+				id := rw.site("sync", n.Pos(), recv+"."+fn.Name())
+				args := []ast.Expr{sel}
+				if wrap == "DoBlocking" {
+					args = []ast.Expr{lit(id), sel}
+				}
+				args = append(args, n.Args...)
+				n.Fun = &ast.SelectorExpr{X: ast.NewIdent(simrtName), Sel: ast.NewIdent(wrap)}
+				n.Args = args
+				return
+			}
+		}
+	}
 	// sync.Map.Range
 	if sel.Sel.Name == "Range" {
 		if s, ok := rw.info.Selections[sel]; ok {
@@ -366,6 +435,60 @@ func (rw *rewriter) call(n *ast.CallExpr) {
 			}
 		}
 	}
+}
+
+// recvExpr wraps a channel receive expression (outside select cases).
+func (rw *rewriter) recvExpr(c *astutil.Cursor, n *ast.UnaryExpr) {
+	switch p := c.Parent().(type) {
+	case *ast.CommClause:
+		return // `case <-ch:` — bracketed at the select statement
+	case *ast.AssignStmt:
+		if cc, ok := rw.parentOf[p].(*ast.CommClause); ok && cc.Comm == p {
+			return // `case v := <-ch:`
+		}
+		if len(p.Lhs) == 2 && len(p.Rhs) == 1 {
+			rw.used = true
+			id := rw.site("chan", n.Pos(), "recv2")
+			c.Replace(simCall("Recv2", lit(id), n.X))
+			return
+		}
+	case *ast.ValueSpec:
+		if len(p.Names) == 2 && len(p.Values) == 1 {
+			rw.used = true
+			id := rw.site("chan", n.Pos(), "recv2")
+			c.Replace(simCall("Recv2", lit(id), n.X))
+			return
+		}
+	case *ast.ExprStmt:
+		if cc, ok := rw.parentOf[p].(*ast.CommClause); ok && cc.Comm == p {
+			return
+		}
+	}
+	rw.used = true
+	id := rw.site("chan", n.Pos(), "recv")
+	c.Replace(simCall("Recv", lit(id), n.X))
+}
+
+// selectStmt brackets a select without default: the token is given up before
+// the select and taken back at the head of whichever case fires.
+func (rw *rewriter) selectStmt(c *astutil.Cursor, n *ast.SelectStmt) {
+	for _, cl := range n.Body.List {
+		if cc, ok := cl.(*ast.CommClause); ok && cc.Comm == nil {
+			return // has a default: never waits
+		}
+	}
+	if c.Index() < 0 {
+		rw.uncontrolled("select (labelled or not in a statement list: not bracketed)", n.Pos())
+		return
+	}
+	rw.used = true
+	id := rw.site("chan", n.Pos(), "select")
+	tok := ast.NewIdent(fmt.Sprintf("zzb%d", id))
+	for _, cl := range n.Body.List {
+		cc := cl.(*ast.CommClause)
+		cc.Body = append([]ast.Stmt{&ast.ExprStmt{X: simCall("BlockEnd", tok)}}, cc.Body...)
+	}
+	c.InsertBefore(&ast.AssignStmt{Lhs: []ast.Expr{tok}, Tok: token.DEFINE, Rhs: []ast.Expr{simCall("BlockBegin", lit(id))}})
 }
 
 func (rw *rewriter) isHTTPClient(cl *ast.CompositeLit) bool {
@@ -390,6 +513,11 @@ func (rw *rewriter) rangeStmt(n *ast.RangeStmt) {
 	var mt *types.Map
 	if t != nil {
 		mt, isMap = t.Underlying().(*types.Map)
+	}
+	if t != nil {
+		if _, isChan := t.Underlying().(*types.Chan); isChan {
+			rw.uncontrolled("range over channel (blocking receive not bracketed)", n.Pos())
+		}
 	}
 	if !isMap || !*flagMaps {
 		if *flagYields {
